@@ -43,7 +43,7 @@ def wide_phase(chk):
         sig = "wide:%s:%s" % (d["what"], h[-1]["op"]["k"])
         sigs[sig] = sigs.get(sig, 0) + 1
         chk.classify(sig, {"behaviour": widetable.describe(h), "wide_hist": h, "wide_ddl": is_ddl, "detail": d})
-    if st["steps"] and st["abandoned"] > 0.5 * st["steps"]:
+    if st["steps"] and st["abandoned"] > 0.5 * st["steps"] and not chk.violations:       # (an unlisted divergence explains the loss itself)
         raise vlib.ToolError("more than half of the WideTable steps were abandoned")
     if st["rows_max"] < 150:
         raise vlib.ToolError("WideTable walks never built a table of 150 rows: the phase is vacuous")
